@@ -402,6 +402,10 @@ func (g *gen) seg(d int) string {
 		if g.f.Include && len(g.names) > 0 {
 			name := pick(g.r, g.names)
 			s := "include '" + name + "'"
+			if g.r.P(20) && len(name) > 2 {
+				// a computed template name
+				s = "include '" + name[:len(name)-1] + "' ~ '" + name[len(name)-1:] + "'"
+			}
 			if g.r.P(40) {
 				s += " with {'s1': " + g.at("include-with", func() string { return g.wrapSpy(g.scalar(1)) }) + ", 'extra': " + g.scalar(0) + "}"
 				if g.r.P(40) {
